@@ -4,6 +4,9 @@
   `d2r_exp`, `d2r_expinv` of `GDesc.model d` for EVERY descriptor `d` (all Bundle lists, all nestings).
 -/
 import SmoothProofs.C19Support
+import SmoothProofs.C19GalA
+import SmoothProofs.C19GalB
+import SmoothProofs.C19GalC
 
 open Lin Scalar Mem
 
@@ -193,36 +196,38 @@ mutual
         simp [Bundle.prodD2rExpinv, memoM_eq, Mat.of]) q ps (d2r_expinv_cov q) (d2r_expinv_covL ps)
 end
 
-/-! ### `ad` (Galilei leaves excluded: its `ad` support lemma is not proved symbolically; the
-    Galilei pattern is tied by T2 and audited on samples) -/
+/-! ### `ad` -/
+
+/-- Galilei: every entry of `ad a` outside the published pattern is zero, for all `a` (rows proved in
+    C19GalA/B/C) -/
+theorem gal_ad_support (a : Vec ℝ 10) (i j : Fin 10) (h : inAd .gal i.val j.val = false) : Galilei.ad a i j = 0 := by
+  fin_cases i
+  · exact gal_ad_row0 a j h
+  · exact gal_ad_row1 a j h
+  · exact gal_ad_row2 a j h
+  · exact gal_ad_row3 a j h
+  · exact gal_ad_row4 a j h
+  · exact gal_ad_row5 a j h
+  · exact gal_ad_row6 a j h
+  · exact gal_ad_row7 a j h
+  · exact gal_ad_row8 a j h
+  · exact gal_ad_row9 a j h
 
 mutual
-  def noGal : GDesc → Bool
-    | .gal => false
-    | .bundle ps => noGalL ps
-    | _ => true
-  def noGalL : List GDesc → Bool
-    | [] => true
-    | p :: ps => noGal p && noGalL ps
-end
-
-mutual
-  theorem ad_cov : (d : GDesc) → noGal d = true → Cov selAd (GDesc.model d) (inAd d)
-    | .so2, _ => cov_zero selAd SO2.model (fun _ => rfl) _
-    | .c1, _ => cov_zero selAd C1.model (fun _ => rfl) _
-    | .tn n, _ => cov_zero selAd (Tn.model n) (fun _ => rfl) _
-    | .so3, _ => cov_of_fin selAd SO3.model (inAd .so3) (fun a i j h =>
+  theorem ad_cov : (d : GDesc) → Cov selAd (GDesc.model d) (inAd d)
+    | .so2 => cov_zero selAd SO2.model (fun _ => rfl) _
+    | .c1 => cov_zero selAd C1.model (fun _ => rfl) _
+    | .tn n => cov_zero selAd (Tn.model n) (fun _ => rfl) _
+    | .so3 => cov_of_fin selAd SO3.model (inAd .so3) (fun a i j h =>
         so3_hat_diag a i j (by simpa [inAd] using h))
-    | .se2, _ => cov_of_fin selAd SE2.model (inAd .se2) (fun a i j h => se2_ad_support a i j h)
-    | .se3, _ => cov_of_fin selAd SE3.model (inAd .se3) (fun a i j h => se3_ad_support a i j h)
-    | .sek3 k, _ => cov_of_fin selAd (SEK3.model k) (inAd (.sek3 k)) (fun a i j h => sek3_ad_support k a i j h)
-    | .gal, h => by cases h
-    | .bundle ps, h => ad_covL ps h
-  theorem ad_covL : (ps : List GDesc) → noGalL ps = true → Cov selAd (Bundle.bundle (GDesc.models ps)) (inAdL ps)
-    | [], _ => fun _ r _ hr _ _ => absurd hr (Nat.not_lt_zero r)
-    | q :: ps, h =>
-      have h' : noGal q = true ∧ noGalL ps = true := by simpa [noGalL] using h
-      cov_cons selAd (fun _ _ _ => rfl) inAd inAdL inAdL_cons q ps (ad_cov q h'.1) (ad_covL ps h'.2)
+    | .se2 => cov_of_fin selAd SE2.model (inAd .se2) (fun a i j h => se2_ad_support a i j h)
+    | .se3 => cov_of_fin selAd SE3.model (inAd .se3) (fun a i j h => se3_ad_support a i j h)
+    | .sek3 k => cov_of_fin selAd (SEK3.model k) (inAd (.sek3 k)) (fun a i j h => sek3_ad_support k a i j h)
+    | .gal => cov_of_fin selAd Galilei.model (inAd .gal) (fun a i j h => gal_ad_support a i j h)
+    | .bundle ps => ad_covL ps
+  theorem ad_covL : (ps : List GDesc) → Cov selAd (Bundle.bundle (GDesc.models ps)) (inAdL ps)
+    | [] => fun _ r _ hr _ _ => absurd hr (Nat.not_lt_zero r)
+    | q :: ps => cov_cons selAd (fun _ _ _ => rfl) inAd inAdL inAdL_cons q ps (ad_cov q) (ad_covL ps)
 end
 
 end Sparse
